@@ -280,8 +280,10 @@ def corr_string(rng):
             out += "${last-saved#" + rng.choice(refs) + "}"
         elif x < 0.9:
             out += "${" + rng.choice(["zz", "a b", "", "a&b", " a", "a}b"]) + "}"
-        else:
+        elif x < 0.97:
             out += rng.choice(["${", "}", "{", "$", "${a\n}", "${last-saved#}"])
+        else:
+            out += rng.choice([" instance('l')/root/item[name = ${a}]/label ", "instance(", " myinstance('x') "])
         if rng.random() < 0.7:
             out += F.adv(rng, 4)
     return out
@@ -331,11 +333,8 @@ def explore(ctx, factor, bs):
     rng = ctx.rng
     ctx.notes["_lean_parse_rate"] = ctx.pick(1.0, 0.25)
     directed(ctx)
-    n_forms = ctx.pick(140, 4500) * factor
-    n_corr = ctx.pick(1500, 40000) * factor
-    import os
-    if os.environ.get("C06_NOCORR"):
-        n_corr = 0
+    n_forms = ctx.pick(500, 9000) * factor
+    n_corr = ctx.pick(6000, 120000) * factor
     for _ in range(n_forms):
         langs = rng.choice([[], [], ["en"], ["en", "fr"], ["English (en)", "fr", "ar"]])
         form, probes = F.gen_probe_form(rng, langs, p_ref=rng.choice([0.0, 0.35, 0.7]), plain=rng.random() < 0.05)
@@ -346,7 +345,7 @@ def explore(ctx, factor, bs):
         if rng.random() < 0.03:
             s += rng.choice(["\r", "\r\n", "\t", "\n"]) + F.adv(rng, 2)
         corr_case(ctx, kind, s)
-    for c in ("\x01", "￾") if n_corr else ():
+    for c in ("\x01", "￾"):
         for kind in ("text", "attr", "mixed"):
             corr_case(ctx, kind, f"a{c}b" + (" ${a}" if kind == "mixed" else ""))
     ctx.notes.pop("_lean_parse_rate", None)
